@@ -342,7 +342,6 @@ def gen_case(rng, tier, category=None, depth=None, where=None):
         nm = rng.choice(["C8", "X8"])
         extra_targets.append({"id": depth + 3, "rel": "ns/%s.1.0.dsdl" % nm, "full": "ns.%s" % nm, "target": True, "refs": []})
     for lvl, c in enumerate(chain):
-        special = []
         refs = []
         if lvl < depth:
             nxt = chain[lvl + 1]
